@@ -59,6 +59,7 @@ type world struct {
 	seq     int
 	cfg     Case
 	outage  *vkit.OutageStore
+	scfg    *session.SessionConfig
 	mapID   string // a port mapping client 0 (listen) -> client 1 (target)
 	tunnels int
 }
@@ -69,16 +70,17 @@ func newWorld(c Case) (*world, error) {
 	hc := hybrid.DefaultConfig()
 	hc.EnablePersistent = false
 	outage := vkit.NewOutageStore(hybrid.NewWithSharedCache(context.Background(), memory.New(context.Background()), nil, nil, hc))
+	scfg := &session.SessionConfig{HeartbeatTimeout: time.Hour, CleanupInterval: time.Hour, MaxConnections: c.MaxConns, MaxControlConnections: c.MaxControl}
 	srv, err := miniserver.New(miniserver.Options{
 		Storage:    outage,
-		Session:    &session.SessionConfig{HeartbeatTimeout: time.Hour, CleanupInterval: time.Hour, MaxConnections: c.MaxConns, MaxControlConnections: c.MaxControl},
+		Session:    scfg,
 		BruteForce: &security.BruteForceConfig{MaxFailures: 100000, TimeWindow: time.Hour, BanDuration: time.Hour, PermanentBanAt: 1000000, CleanupInterval: time.Hour},
 		IPRate:     &security.RateLimitConfig{Rate: 100000, Burst: 100000, TTL: time.Hour},
 	})
 	if err != nil {
 		return nil, err
 	}
-	w := &world{srv: srv, cfg: c, outage: outage}
+	w := &world{srv: srv, cfg: c, outage: outage, scfg: scfg}
 	for i := 0; i < nClients; i++ {
 		cl, err := srv.Cloud.GenerateAnonymousCredentials()
 		if err != nil {
@@ -96,6 +98,14 @@ func newWorld(c Case) (*world, error) {
 }
 
 type fail struct{ key, detail string }
+
+// realSweep runs the server's own heartbeat-timeout sweep (hook VerifCleanupStaleConnections: the
+// function the cleanup ticker calls) with a 5 ms timeout; the cleanup ticker itself never fires here.
+func (w *world) realSweep() {
+	w.scfg.HeartbeatTimeout = 5 * time.Millisecond
+	w.srv.SM.VerifCleanupStaleConnections()
+	w.scfg.HeartbeatTimeout = time.Hour
+}
 
 func (w *world) live() []*slot {
 	var out []*slot
@@ -241,8 +251,11 @@ func (w *world) step(a Action) (*fail, string) {
 		// a data connection of the mapping's listen client opens a tunnel: once accepted, the session
 		// layer hands the connection over to the tunnel machinery (it leaves the control registry)
 		s := pick()
-		if s == nil || !s.tunnelOnly || s.handedOver || s.authed != w.ids[0] {
+		if s == nil || s.handedOver || s.authed != w.ids[0] {
 			return nil, tag + ":skipped"
+		}
+		if !s.tunnelOnly {
+			tag = "tunnel_open:on-control-connection" // a legacy client: its control-type connection itself becomes the data tunnel
 		}
 		w.tunnels++
 		tid := fmt.Sprintf("c07-tunnel-%d", w.tunnels)
@@ -294,9 +307,19 @@ func (w *world) step(a Action) (*fail, string) {
 				s.cl.Push(&packet.TransferPacket{PacketType: packet.Heartbeat})
 			}
 		}
-		w.srv.SM.GetClientRegistry().CleanupStale(5*time.Millisecond, func(connID string, clientID int64, authenticated bool) error {
-			return w.srv.SM.CloseConnection(connID)
-		})
+		w.realSweep()
+	case "sweep_outage":
+		// the heartbeat-timeout sweep while the state store (and with it the cloud control's offline
+		// notification) fails: the evicted connections must be closed and forgotten all the same
+		time.Sleep(6 * time.Millisecond)
+		for i, s := range w.live() {
+			if a.Mask&(1<<uint(i)) == 0 && !s.handedOver {
+				s.cl.Push(&packet.TransferPacket{PacketType: packet.Heartbeat})
+			}
+		}
+		w.outage.Down.Store(true)
+		w.realSweep()
+		w.outage.Down.Store(false)
 	case "close_server_outage", "close_peer_outage":
 		// the connection ends while the state store is unreachable (every storage call fails)
 		s := pick()
@@ -339,10 +362,16 @@ func (w *world) invariants() *fail {
 	for ci := 0; ci < nClients; ci++ {
 		id := w.ids[ci]
 		cc := sm.GetControlConnectionByClientID(id)
+		// the interface-typed accessor (what the HTTP side uses for "is the client online?") must agree: nothing is nil
+		if ci := sm.GetControlConnectionInterface(id); (ci == nil) != (cc == nil) {
+			return &fail{"C07/interface-lookup-disagrees-with-lookup", fmt.Sprintf("client %d: GetControlConnectionByClientID nil=%v, GetControlConnectionInterface == nil is %v", ci2(ci), cc == nil, ci == nil)}
+		} else if ci != nil && ci.GetConnID() != cc.GetConnID() {
+			return &fail{"C07/interface-lookup-disagrees-with-lookup", fmt.Sprintf("%s vs %s", ci.GetConnID(), cc.GetConnID())}
+		}
 		// the most recent successful login that is still live
 		var cur *slot
 		for _, s := range w.live() {
-			if s.authed == id && !s.tunnelOnly && (cur == nil || s.loginSeq > cur.loginSeq) {
+			if s.authed == id && !s.tunnelOnly && !s.handedOver && (cur == nil || s.loginSeq > cur.loginSeq) {
 				cur = s
 			}
 		}
@@ -355,6 +384,8 @@ func (w *world) invariants() *fail {
 				return &fail{"C07/lookup-returns-closed-connection", fmt.Sprintf("client %d -> %s which was closed/evicted", ci, cc.GetConnID())}
 			case !cc.IsAuthenticated() || cc.GetClientID() != id:
 				return &fail{"C07/lookup-returns-foreign-connection", fmt.Sprintf("lookup of client id %d returns connection %s authenticated=%v as %d", id, cc.GetConnID(), cc.IsAuthenticated(), cc.GetClientID())}
+			case s.handedOver:
+				return &fail{"C07/lookup-returns-connection-handed-over-to-a-tunnel", fmt.Sprintf("client %d -> %s, which left the control registry when its TunnelOpen was accepted and now carries raw tunnel bytes", id, cc.GetConnID())}
 			case s.tunnelOnly:
 				return &fail{"C07/lookup-returns-tunnel-type-connection", fmt.Sprintf("client %d -> %s, which only completed a tunnel-type handshake", id, cc.GetConnID())}
 			case s.authed != id:
@@ -440,6 +471,13 @@ func (w *world) invariants() *fail {
 	return nil
 }
 
+func ci2(ci session.ControlConnectionInterface) int64 {
+	if ci == nil {
+		return 0
+	}
+	return ci.GetClientID()
+}
+
 func runCase(t vkit.TB, c Case) {
 	w, err := newWorld(c)
 	if err != nil {
@@ -457,7 +495,7 @@ func runCase(t vkit.TB, c Case) {
 			vkit.Case("known", false, "")
 			return
 		}
-		if strings.HasPrefix(tag, "login:") || tag == "login_tunnel" || strings.HasPrefix(tag, "login_bad") || tag == "tunnel_open" {
+		if strings.HasPrefix(tag, "login:") || tag == "login_tunnel" || strings.HasPrefix(tag, "login_bad") || strings.HasPrefix(tag, "tunnel_open") {
 			interesting = true
 		}
 	}
@@ -486,11 +524,11 @@ func genCase(t *rapid.T) Case {
 	n := rapid.IntRange(2, vkit.Pick(22, 40)).Draw(t, "n")
 	c.Actions = append(c.Actions, Action{Kind: "accept"}, Action{Kind: "accept"})
 	for i := 0; i < n; i++ {
-		k := rapid.SampledFrom([]string{"accept", "accept", "login", "login", "login", "login", "login_tunnel", "login_tunnel", "tunnel_open", "tunnel_open", "login_bad", "login_bad", "phase1", "kick", "heartbeat", "sweep", "close_server", "close_peer", "close_server_outage", "close_peer_outage"}).Draw(t, "kind")
+		k := rapid.SampledFrom([]string{"accept", "accept", "login", "login", "login", "login", "login_tunnel", "login_tunnel", "tunnel_open", "tunnel_open", "login_bad", "login_bad", "phase1", "kick", "heartbeat", "sweep", "sweep_outage", "close_server", "close_peer", "close_server_outage", "close_peer_outage"}).Draw(t, "kind")
 		a := Action{Kind: k, Conn: rapid.IntRange(0, 7).Draw(t, "conn"), Client: rapid.IntRange(0, nClients-1).Draw(t, "client")}
-		if k == "sweep" || k == "kick" {
+		if k == "sweep" || k == "kick" || k == "sweep_outage" {
 			a.Mask = rapid.IntRange(0, 31).Draw(t, "mask")
-			if k == "sweep" && rapid.IntRange(0, 2).Draw(t, "rare") != 0 {
+			if k != "kick" && rapid.IntRange(0, 2).Draw(t, "rare") != 0 {
 				a.Kind = "login"
 			}
 		}
